@@ -276,7 +276,7 @@ pub fn composite_by_name(name: &str) -> Option<&'static Composite> {
     COMPOSITES.iter().find(|c| c.name == name)
 }
 
-fn composite_by_descriptor(d: &RVal) -> Option<&'static Composite> {
+pub fn composite_by_descriptor(d: &RVal) -> Option<&'static Composite> {
     match d {
         RVal::Ulong(code) => composite_by_code(*code),
         RVal::Sym(s) => composite_by_symbol(s),
